@@ -2,19 +2,19 @@
 Require Import Scale.Bytes Scale.Eres Scale.Prog Scale.ProgFacts Scale.ProgMore Scale.Chunks Scale.Monitors Scale.CompactImpl
   Scale.CompactSpec Scale.CompactProofs Scale.CompactTheorems Scale.Utf8 Scale.Codec Scale.CodecEnc Scale.CodecDec Scale.CodecRt Scale.CodecMore.
 
-(* for every type without bit sequences, every well-formed value, every suffix, known or
+(* for every type of the universe (bit sequences included), every well-formed value, every suffix, known or
    unknown remaining length: decoding the encoding followed by anything returns the value
    (heaps as sorted multisets: canon) and leaves exactly the suffix *)
 Theorem C02_roundtrip : forall t v bs known rest,
-  nobits t = true -> wf_ty t = true -> wf t v = true -> enc_spec t v = EOk bs ->
+  wf_ty t = true -> wf t v = true -> enc_spec t v = EOk bs ->
   runo (dec t) known (bs ++ rest) = OOk (canon t v) rest.
 Proof. exact roundtrip. Qed.
 
 (* the same for what the implementation model produces *)
 Theorem C02_roundtrip_impl : forall t v bs known rest,
-  nobits t = true -> wf_ty t = true -> wf t v = true -> enc_impl t v = EOk bs ->
+  wf_ty t = true -> wf t v = true -> enc_impl t v = EOk bs ->
   runo (dec t) known (bs ++ rest) = OOk (canon t v) rest.
-Proof. intros t v bs known rest Hb Ht Hw He. rewrite enc_impl_is_spec in He by exact Hw. now apply roundtrip. Qed.
+Proof. intros t v bs known rest Ht Hw He. rewrite enc_impl_is_spec in He by exact Hw. now apply roundtrip. Qed.
 
 (* through the chunked readers: 16 KiB chunks = one read, for every count and chunk size *)
 Theorem C02_chunked_read_is_one_read : forall B n known bs, 1 <= B <= 16 ->
@@ -32,7 +32,7 @@ Proof. exact canon_set_id. Qed.
 Definition ex_t := TColl CMap 48 (TPair (TPrim 1) (TPair (TColl CVec 2 (TPrim 2)) TUnit)).
 Definition ex_v := VSeq [VPair (VN 1) (VPair (VSeq [VN 513]) VUnit); VPair (VN 7) (VPair (VSeq []) VUnit)].
 Example C02_nonvacuous :
-  nobits ex_t = true /\ wf_ty ex_t = true /\ wf ex_t ex_v = true /\
+  wf_ty ex_t = true /\ wf ex_t ex_v = true /\
   enc_spec ex_t ex_v = EOk [x08; x01; x04; x01; x02; x07; x00] /\
   runo (dec ex_t) true ([x08; x01; x04; x01; x02; x07; x00] ++ [xff]) = OOk ex_v [xff].
 Proof. repeat split; vm_compute; reflexivity. Qed.
